@@ -268,6 +268,10 @@ def dispatch(E, c, tc, args):
         if c.split("::")[-1].startswith("or_default"):
             mt_ = re.search(r"Entry::<.*?, (.*)>::or_default$", c, re.S)
             val = VSeq([], "vec") if mt_ and last_seg_(mt_.group(1)) == "Vec" else None
+            vty = re.sub(r"^.*[,<]\s*", "", re.sub(r">::or_default$", "", c)).strip()
+            if val is None and last_seg_(vty) in ("Assets", "MintAssets"):
+                mt_ = re.match(r"(.*)", vty)
+                val = VStruct(last_seg_(mt_.group(1)), [VSeq([], "map")])       # #[derive(Default)] newtype around an ordered map
             if val is None:
                 raise Unsupported("or_default for " + c)
         elif "or_insert_with" in c:
